@@ -460,3 +460,23 @@ Definition py_find (el q : pv) : res pv :=
   | VList [] => Ok VNone
   | _ => Err TypeError
   end.
+
+(* ---------- x[lo:hi] on a str / list / tuple (no step): Python's clamping of the bounds ---------- *)
+Definition slice_bound (len : nat) (b : pv) (dflt : nat) : res nat :=
+  match b with
+  | VNone => Ok dflt
+  | _ => match int_like b with
+         | Some i =>
+             let i' := if (i <? 0)%Z then (Z.of_nat len + i)%Z else i in
+             Ok (if (i' <? 0)%Z then O else if (Z.of_nat len <? i')%Z then len else Z.to_nat i')
+         | None => Err TypeError
+         end
+  end.
+Definition slice_list {A} (l : list A) (lo hi : nat) : list A := firstn (hi - lo) (skipn lo l).
+Definition py_slice (x lo hi : pv) : res pv :=
+  match x with
+  | VStr s => a <- slice_bound (length s) lo O ;; b <- slice_bound (length s) hi (length s) ;; Ok (VStr (slice_list s a b))
+  | VList l => a <- slice_bound (length l) lo O ;; b <- slice_bound (length l) hi (length l) ;; Ok (VList (slice_list l a b))
+  | VTuple l => a <- slice_bound (length l) lo O ;; b <- slice_bound (length l) hi (length l) ;; Ok (VTuple (slice_list l a b))
+  | _ => Err TypeError
+  end.
